@@ -327,11 +327,24 @@ func extractC15(c *ctxT) {
 	}
 	boolean("customQuorumLookupOk", "GetCustomMsgQuorum: custom params of getProposalMsgType(proposal) found ⇒ its Quorum, else the default argument", lookupShape("GetCustomMsgQuorum", "Quorum", "defaultQuorum"))
 	boolean("customPeriodLookupOk", "GetCustomMsgVotingPeriod: custom params of getProposalMsgType(proposal) found ⇒ its VotingPeriod, else the default argument", lookupShape("GetCustomMsgVotingPeriod", "VotingPeriod", "defaultVotingPeriod"))
-	firstMsgType := false
+	// getProposalMsgType: what is returned for the first element of proposal.GetMessages() (a []*codectypes.Any)
+	propTypeExpr, propTypeOk := "<not found>", false
 	if fd := c.findFunc(kdir, "", "getProposalMsgType"); fd != nil {
-		firstMsgType = squash(c.src(fd.Body)) == squash("{ message := proposal.GetMessages()\n for _, msg := range message {\n return sdk.MsgTypeURL(msg)\n }\n return \"\" }")
+		if n := c15Find(fd.Body, func(n ast.Node) bool { _, ok := n.(*ast.RangeStmt); return ok }); n != nil {
+			rs := n.(*ast.RangeStmt)
+			if len(rs.Body.List) == 1 && c.src(rs.X) == "message" && rs.Value != nil {
+				if ret, ok := rs.Body.List[0].(*ast.ReturnStmt); ok && len(ret.Results) == 1 {
+					propTypeExpr = squash(c.src(ret.Results[0]))
+					propTypeOk = propTypeExpr == c.src(rs.Value)+".TypeUrl"
+				}
+			}
+		} else if len(fd.Body.List) == 1 {
+			propTypeExpr = squash(c.src(fd.Body.List[0]))
+			propTypeOk = propTypeExpr == "return types.ExtractMsgTypeURL(proposal.Messages)" || propTypeExpr == "return types.ExtractMsgTypeURL(proposal.GetMessages())"
+		}
 	}
-	boolean("msgTypeIsFirstMessage", "getProposalMsgType returns the type url of the first message, \"\" when there is none", firstMsgType)
+	str("propTypeExpr", "getProposalMsgType: the value returned for the first element of proposal.GetMessages(), which are *codectypes.Any wrappers", propTypeExpr)
+	boolean("propTypeIsMessageUrl", "it is the wrapped message's type url (`msg.TypeUrl`), not the url of the wrapper type (`sdk.MsgTypeURL(msg)` on an *Any is \"/google.protobuf.Any\")", propTypeOk)
 	actCustom, actDefault := false, false
 	if fd := c.findFunc(kdir, "Keeper", "ActivateVotingPeriod"); fd != nil {
 		actCustom = c15Find(fd.Body, func(n ast.Node) bool {
@@ -375,6 +388,7 @@ func extractC15(c *ctxT) {
 	boolean("activationUsesMsgMin", "minDepositAmount is first replaced by GetMinDepositAmountFromProposalMsgs(ctx, minDepositAmount, proposal)", actMsgMin)
 
 	egfType, egfCmp, egfRound, egfCombine, egfZero := "<not found>", "<not found>", "<not found>", "<not found>", false
+	egfArg := "<not found>"
 	if fd := c.findFunc(kdir, "Keeper", "GetMinDepositAmountFromProposalMsgs"); fd != nil {
 		for _, n := range c15All(fd.Body, func(n ast.Node) bool { _, ok := n.(*ast.AssignStmt); return ok }) {
 			as := n.(*ast.AssignStmt)
@@ -398,9 +412,10 @@ func extractC15(c *ctxT) {
 				return false
 			}
 			ce, ok := ue.X.(*ast.CallExpr)
-			return ok && len(ce.Args) == 2 && c.src(ce.Args[0]) == "sdk.MsgTypeURL(msg)" && c.src(ce.Args[1]) == "egfMsgTypeURL"
+			return ok && len(ce.Args) == 2 && c.src(ce.Args[1]) == "egfMsgTypeURL"
 		}); n != nil {
 			egfCmp = c.src(n.(*ast.IfStmt).Cond.(*ast.UnaryExpr).X.(*ast.CallExpr).Fun)
+			egfArg = squash(c.src(n.(*ast.IfStmt).Cond.(*ast.UnaryExpr).X.(*ast.CallExpr).Args[0]))
 		}
 		egfZero = c15Find(fd.Body, func(n ast.Node) bool {
 			is, ok := n.(*ast.IfStmt)
@@ -423,6 +438,8 @@ func extractC15(c *ctxT) {
 	egfURL := c15Urls[egfType]
 	str("egfMsgType", "the Go type whose url selects the community-pool-spend rule", egfType)
 	str("egfUrl", "its proto type url", egfURL)
+	str("egfMsgUrlExpr", "what is compared with the EGF url for each element of proposal.GetMessages() (*codectypes.Any wrappers)", egfArg)
+	boolean("egfUrlIsMessageUrl", "it is the wrapped message's type url (`msg.TypeUrl`)", egfArg == "msg.TypeUrl")
 	str("egfTypeCmp", "comparison of each message's url with the EGF url", egfCmp)
 	str("egfRounding", "share = LegacyNewDecFromInt(amount).Mul(ratio).<rounding>()", egfRound)
 	boolean("egfZeroRatioIsDefault", "a zero deposit ratio means the default minimum", egfZero)
@@ -459,8 +476,8 @@ func extractC15(c *ctxT) {
 		}
 	}
 	type row struct {
-		url         string
-		r, p, q     *big.Int
+		url           string
+		r, p, q       *big.Int
 		okR, okP, okQ bool
 	}
 	var rows []row
